@@ -1,5 +1,6 @@
 #include "props_common.hpp"
 
+#include <cctype>
 #include <cstdlib>
 #include <cstring>
 
@@ -187,6 +188,67 @@ bool stretch_one_lexeme(PlanOp& op, Rng& rng, const ref::Model& m, size_t target
         }
     }
     return false;
+}
+
+
+namespace
+{
+    struct DeepRecipe { const char* grammar; std::vector<const char*> open, core, close, tail; int per_level; };
+    // term display names as in fleet/specs.py
+    const std::vector<DeepRecipe>& recipes()
+    {
+        static const std::vector<DeepRecipe> r = {
+            { "G1", { "(" }, { "num" }, { ")" }, { ";" }, 1 },
+            { "G2", { "(" }, { "id" }, { ")" }, {}, 1 },
+            { "G3", { "x" }, {}, {}, {}, 2 },
+            { "G4", { "[" }, { "num" }, { "]" }, {}, 1 },
+            { "G4", { "{", "str", ":" }, { "num" }, { "}" }, {}, 3 },
+            { "G5", { "{" }, {}, { "}" }, {}, 2 },
+            { "G6", { "open" }, { "item" }, { "close" }, { "end" }, 1 },
+            { "G7", { "{" }, {}, { "}" }, {}, 2 },
+            { "G11", { "(" }, { "x", ";" }, { ")" }, {}, 2 },
+        };
+        return r;
+    }
+    int term_by_name(const ref::Model& m, const char* name)
+    {
+        for (size_t i = 0; i < m.g.terms.size(); ++i) if (m.g.terms[i].name == name) return int(i);
+        return -1;
+    }
+}
+
+bool make_deep_op(PlanOp& op, Rng& rng, const std::string& key, int target)
+{
+    std::string gname = grammar_of(key);
+    const ref::Model* m = model_for(gname);
+    if (!m) return false;
+    std::vector<const DeepRecipe*> cand;
+    for (const DeepRecipe& r : recipes()) if (gname == r.grammar) cand.push_back(&r);
+    if (cand.empty()) return false;
+    const DeepRecipe& r = *cand[size_t(rng.below(cand.size()))];
+    int depth = (target + rng.range(-8, 8)) / r.per_level;
+    if (depth < 1) depth = 1;
+    auto tok = [&](const char* name) -> PTok
+    {
+        PTok t; t.term = term_by_name(*m, name);
+        const ref::TermSpec& ts = m->g.terms[size_t(t.term)];
+        if (ts.kind == ref::T_REGEX) t.lex = sample_regex(*m->lexer->regexes()[size_t(t.term)], rng, 1);
+        else if (ts.kind == ref::T_CUSTOM) t.lex = "k";
+        else t.lex = ts.data;
+        if (t.lex.empty()) t.lex = "1";
+        return t;
+    };
+    op.toks.clear(); op.tail.clear(); op.use_raw = false;
+    for (int d = 0; d < depth; ++d) for (const char* n : r.open) op.toks.push_back(tok(n));
+    for (const char* n : r.core) op.toks.push_back(tok(n));
+    for (int d = 0; d < depth; ++d) for (const char* n : r.close) op.toks.push_back(tok(n));
+    for (const char* n : r.tail) op.toks.push_back(tok(n));
+    // wordy neighbours need a blank (custom lexemes and identifiers)
+    for (size_t i = 1; i < op.toks.size(); ++i)
+        if (!op.toks[i - 1].lex.empty() && std::isalnum((unsigned char)op.toks[i - 1].lex.back()) && std::isalnum((unsigned char)op.toks[i].lex[0])) op.toks[i].ws = " ";
+    op.skip_ws = true; op.skip_nl = true;
+    for (const PTok& t : op.toks) if (t.term < 0) return false;
+    return true;
 }
 
 Plan single_op_plan(const std::string& property, uint64_t seed, int64_t index, const std::string& mode, const PlanOp& op)
